@@ -620,6 +620,11 @@ func mapToSparseSignatureCollection(
 		}
 
 		sp := proof.AsSparse()
+		if len(sp.Signatures) == 0 {
+			// A proof without signatures carries no information,
+			// and an entry with zero signatures cannot be loaded back from the round store.
+			continue
+		}
 		out.BlockSignatures[hash] = append(out.BlockSignatures[hash], sp.Signatures...)
 	}
 
